@@ -54,6 +54,7 @@ type Exec struct {
 	sumEp   int // >0 while summarising: stores to objects with Epoch < sumEp abort
 	barrier int // >0: stores to objects with Epoch < barrier are violations (C14)
 	lazy    int // >0: skip feasibility checks at branches
+	force   bool // check feasibility at the next branch even in lazy mode
 
 	symSeq    map[string]int
 	inputs    []InputVar
@@ -300,7 +301,9 @@ func (e *Exec) branch(cond *Term) bool {
 		return false
 	}
 	var tOK, fOK bool
-	if e.lazy > 0 {
+	force := e.force
+	e.force = false
+	if e.lazy > 0 && !force {
 		tOK, fOK = true, true
 	} else {
 		mt, mf := e.modelSays(cond)
@@ -344,7 +347,20 @@ func (e *Exec) pick(t *Term) int64 {
 	}
 	var vals []int64
 	var excl []*Term
-	for {
+	if t.isConstTree() {
+		// guarded value set: candidates are the leaves
+		for _, v := range e.ctx.LeafValues(t) {
+			eq := e.ctx.Eq(t, e.ctx.BV(v, t.W))
+			mt, _ := e.modelSays(eq)
+			if e.feasible(eq, mt) {
+				vals = append(vals, signExt(v, t.W))
+			}
+		}
+	} else {
+		vals, excl = e.enumerate(t)
+	}
+	_ = excl
+	for false {
 		r, m := e.sat(excl...)
 		if r == Unsat {
 			break
@@ -372,6 +388,30 @@ func (e *Exec) pick(t *Term) int64 {
 	s.pos++
 	e.addPC(e.ctx.Eq(t, e.ctx.BV(uint64(vals[0]), t.W)))
 	return vals[0]
+}
+
+// enumerate lists every feasible value of t with the solver.
+func (e *Exec) enumerate(t *Term) ([]int64, []*Term) {
+	var vals []int64
+	var excl []*Term
+	for {
+		r, m := e.sat(excl...)
+		if r == Unsat {
+			break
+		}
+		if r == Unknown {
+			e.note("unknown:pick")
+			panic(pathEnd{"unknown while concretising"})
+		}
+		v := Eval(t, m, map[int]uint64{})
+		vals = append(vals, signExt(v, t.W))
+		excl = append(excl, e.ctx.Ne(t, e.ctx.BV(v, t.W)))
+		if len(vals) > e.cfg.MaxEnum {
+			e.note("bound-exceeded:enum")
+			panic(pathEnd{"bound exceeded: concretisation fan-out"})
+		}
+	}
+	return vals, excl
 }
 
 // choose forks n ways without consulting the solver (free nondeterminism:
@@ -642,6 +682,120 @@ func (e *Exec) pureBlock(f *frame, blk *ssa.BasicBlock) bool {
 	return ok
 }
 
+// pureCondBlock: single predecessor, pure instructions, ends in If.
+func (e *Exec) pureCondBlock(f *frame, blk *ssa.BasicBlock) bool {
+	if len(blk.Preds) != 1 || len(blk.Instrs) > 12 || len(blk.Instrs) == 0 {
+		return false
+	}
+	if _, ok := blk.Instrs[len(blk.Instrs)-1].(*ssa.If); !ok {
+		return false
+	}
+	for _, ins := range blk.Instrs[:len(blk.Instrs)-1] {
+		switch x := ins.(type) {
+		case *ssa.BinOp:
+			switch x.Op {
+			case token.QUO, token.REM, token.SHL, token.SHR:
+				return false
+			}
+			if _, ok := x.X.Type().Underlying().(*types.Basic); !ok {
+				return false
+			}
+			if isString(x.X.Type()) && x.Op == token.ADD {
+				return false
+			}
+		case *ssa.UnOp:
+			if x.Op == token.MUL || x.Op == token.ARROW {
+				return false
+			}
+		case *ssa.Convert:
+			if typeWidth(x.Type()) < 0 || typeWidth(x.X.Type()) < 0 || isFloat(x.Type()) || isFloat(x.X.Type()) {
+				return false
+			}
+		case *ssa.ChangeType, *ssa.DebugRef:
+		default:
+			return false
+		}
+	}
+	return true
+}
+
+// shortCircuit fuses the two tests of "c1 && c2" / "c1 || c2" (block A tests c1,
+// a pure block B tests c2, both share one exit) into a single decision, so a
+// loop body with such a condition forks two ways per iteration instead of three.
+func (e *Exec) shortCircuit(f *frame, A *ssa.BasicBlock, c1 *Term) (*ssa.BasicBlock, *ssa.BasicBlock, bool) {
+	T, F := A.Succs[0], A.Succs[1]
+	var B, C, D *ssa.BasicBlock
+	isAnd := false
+	switch {
+	case e.pureCondBlock(f, T) && (T.Succs[1] == F) && T.Succs[0] != F:
+		// A: if c1 goto B else C; B: if c2 goto D else C      (c1 && c2)
+		B, C, D, isAnd = T, F, T.Succs[0], true
+	case e.pureCondBlock(f, F) && (F.Succs[0] == T) && F.Succs[1] != T:
+		// A: if c1 goto C else B; B: if c2 goto C else D      (c1 || c2)
+		B, C, D, isAnd = F, T, F.Succs[1], false
+	default:
+		return nil, nil, false
+	}
+	if B == A || C == B || D == B {
+		return nil, nil, false
+	}
+	// phis in C merge the edges from A and B; they must be scalars
+	for _, ins := range C.Instrs {
+		phi, ok := ins.(*ssa.Phi)
+		if !ok {
+			break
+		}
+		if typeWidth(phi.Type()) < 0 {
+			return nil, nil, false
+		}
+	}
+	// D must not have phis depending on which of several predecessors... it has B as a predecessor; fine.
+	for _, ins := range B.Instrs[:len(B.Instrs)-1] {
+		e.steps++
+		e.step(f, ins)
+	}
+	c2 := e.get(f, B.Instrs[len(B.Instrs)-1].(*ssa.If).Cond).(*Term)
+	var goD, viaB *Term
+	if isAnd {
+		goD = e.ctx.And(c1, c2)
+		viaB = c1 // reaching C through B means c1 held and c2 failed
+	} else {
+		goD = e.ctx.And(e.ctx.Not(c1), e.ctx.Not(c2))
+		viaB = e.ctx.Not(c1)
+	}
+	e.note("short-circuit fused")
+	if e.branch(goD) {
+		f.phiOv = nil
+		return D, B, true
+	}
+	ov := map[*ssa.Phi]Value{}
+	for _, ins := range C.Instrs {
+		phi, ok := ins.(*ssa.Phi)
+		if !ok {
+			break
+		}
+		var vA, vB *Term
+		for i, p := range C.Preds {
+			if p == A {
+				vA = e.get(f, phi.Edges[i]).(*Term)
+			}
+			if p == B {
+				vB = e.get(f, phi.Edges[i]).(*Term)
+			}
+		}
+		if vA == nil || vB == nil {
+			panic(unsupported{"short-circuit phi without both edges"})
+		}
+		ov[phi] = e.ctx.Ite(viaB, vB, vA)
+	}
+	f.phiOv = ov
+	if len(ov) == 0 {
+		f.phiOv = nil
+		return C, A, true
+	}
+	return C, A, true
+}
+
 // ifConvert turns a pure triangle/diamond into ite-terms. It returns the join
 // block (with its phis pre-computed) or nil if the shape does not apply.
 func (e *Exec) ifConvert(f *frame, b *ssa.BasicBlock, c *Term) *ssa.BasicBlock {
@@ -844,6 +998,8 @@ func (e *Exec) run(fn *ssa.Function, args []Value, env []Value) Value {
 	for {
 		var next *ssa.BasicBlock
 		converted := false
+		scPrev := false
+		f.visits[b.Index]++
 		for _, ins := range b.Instrs {
 			e.steps++
 			if e.steps > e.cfg.MaxSteps {
@@ -867,7 +1023,17 @@ func (e *Exec) run(fn *ssa.Function, args []Value, env []Value) Value {
 				next = b.Succs[0]
 			case *ssa.If:
 				c := e.get(f, x.Cond).(*Term)
+				// inside loops feasibility is checked even in lazy mode, so
+				// that symbolic trip counts terminate
+				e.force = e.lazy > 0 && f.visits[b.Index] > 64
 				if !c.IsConst() {
+					if nb, pv, ok := e.shortCircuit(f, b, c); ok {
+						next = nb
+						f.prev = pv
+						scPrev = true
+						converted = f.phiOv != nil
+						break
+					}
 					if j := e.ifConvert(f, b, c); j != nil {
 						next = j
 						converted = true
@@ -894,7 +1060,9 @@ func (e *Exec) run(fn *ssa.Function, args []Value, env []Value) Value {
 		if !converted {
 			f.phiOv = nil
 		}
-		f.prev = b
+		if !scPrev {
+			f.prev = b
+		}
 		b = next
 	}
 }
@@ -1018,6 +1186,44 @@ func (e *Exec) mergeOutcomes(n int, get func(i int) (*Term, Value)) (Value, bool
 	switch x := v0.(type) {
 	case nil:
 		return nil, true
+	case *SliceV:
+		// slices over one backing array merge into a symbolic window; nil
+		// results form a class of their own, selected by one branch.
+		var nilConds []*Term
+		var idx []int
+		var arr *ArrayObj
+		for i := 0; i < n; i++ {
+			c, v := get(i)
+			sv, ok := v.(*SliceV)
+			if !ok {
+				return nil, false
+			}
+			if isNil(sv) {
+				nilConds = append(nilConds, c)
+				continue
+			}
+			if arr == nil {
+				arr = sv.Arr
+			} else if arr != sv.Arr {
+				return nil, false
+			}
+			idx = append(idx, i)
+		}
+		if len(idx) == 0 {
+			return x, true
+		}
+		if len(nilConds) > 0 && e.branch(e.ctx.Or(nilConds...)) {
+			return &SliceV{Off: e.ctx.Int(0), Len: e.ctx.Int(0), Cap: e.ctx.Int(0)}, true
+		}
+		_, lv := get(idx[len(idx)-1])
+		last := lv.(*SliceV)
+		off, ln, cp := last.Off, last.Len, last.Cap
+		for k := len(idx) - 2; k >= 0; k-- {
+			c, v := get(idx[k])
+			sv := v.(*SliceV)
+			off, ln, cp = e.ctx.Ite(c, sv.Off, off), e.ctx.Ite(c, sv.Len, ln), e.ctx.Ite(c, sv.Cap, cp)
+		}
+		return &SliceV{Arr: arr, Off: off, Len: ln, Cap: cp}, true
 	case *Term:
 		acc := x
 		for i := n - 2; i >= 0; i-- {
